@@ -146,9 +146,22 @@ CHECKS = {
              "disabled categories never invoke their actions and the LLM is called only by dialog rails.",
         note="Colang 1.0 only (options are not supported for 2.x by design). Texts are concrete markers. Outside: selecting individual rails by name.",
         ref="4/C16"),
+    "C17": dict(
+        text="(a) For every string of up to 4 code points (any Unicode) z3 proves on every path of the 13 post-processing helpers / output parsers every LLM completion goes through "
+             "(first non-empty line, top-k lines, quote stripping, multi-line response, intent/action identifier helpers, user/bot intent and message parsers, verbose_v1 parser) that none "
+             "raises, result types are as documented and results are parts of / no longer than the input; the five completion prefixes followed by any string of up to 3 code points are "
+             "stripped exactly as specified. (c) Through the real LLMRails.generate_async (Colang 1.0: three-call mode, single_call mode, `$x = ...` value generation) with the completion of "
+             "one symbolic LLM call being any concatenation of 2 (thorough 3) tokens of an 18-token hostile alphabet, generate returns a well-formed assistant / rail-exception message and never "
+             "raises; template and variable syntax in an LLM-produced bot message is returned verbatim.",
+        note="In (c) the completion is concrete on each path (the solver enumerates token indices; the pipeline then runs natively) - only (a) is symbolic reasoning over strings. "
+             "Outside: Colang 2.x LLM flows (`import llm`), multi-step dynamic flow generation, long outputs.",
+        ref="0.4, 4/C17"),
 }
 
 NOT_APPLICABLE = {
+    "C12": "The quantifier of C12 is over programs. Program text is realised at once by the Lark lexer (2.x) / the regex-based parser (1.0), so the expansion code can only be run on concrete "
+           "programs: the solver could at best drive an enumeration of skeleton programs with every downstream step concrete, i.e. enumeration of concrete runs, which is not solver-based "
+           "checking. A closure check over the shipped .co files and the catalogue programs would be a plain test and is not claimed (DESIGN.md 0.1).",
 }
 
 
